@@ -57,6 +57,12 @@ def encode_text(text, nl, enc=None):
     return converted.encode(enc)
 
 
+def is_ignored_path(path):
+    """Mirror of the two default ignored_resources patterns the generators use
+    ('*~' and '*.pyc'; a pattern matches any path component)."""
+    return any(part.endswith("~") or part.endswith(".pyc") for part in path.split("/"))
+
+
 class TreeModel:
     """path -> DIR | bytes"""
 
@@ -174,30 +180,60 @@ class HistoryModel:
 
     Invariant checked against the real project after every step:
         real tree == replay(base, undo list)
+
+    A change set that touches only ignored resources is performed but not
+    recorded by rope ("uninteresting").  The model keeps it as a *ghost*
+    record: it takes part in replay at its place in time, but it is invisible
+    in `undo` (the list shape), does not count against the limit and cannot be
+    undone; if what it needs has been undone meanwhile it silently vanishes
+    (ignored files are not under the history's protection).
     """
 
     def __init__(self, base: TreeModel, limit: int):
         self.base = base.copy()
         self.limit = limit
-        self.undo = []  # records: {"id": int, "ops": [...]}
+        self._undo = []  # records: {"id": int, "desc": str, "ops": [...], "ghost"?: True}
         self.redo = []
         self.stale = set()  # ids on the redo list whose prerequisite was dropped
 
+    @property
+    def undo(self):
+        return [r for r in self._undo if not r.get("ghost")]
+
     def current(self) -> TreeModel:
         t = self.base.copy()
-        for rec in self.undo:
-            t.apply_all(rec["ops"])
+        for rec in self._undo:
+            if rec.get("ghost"):
+                try:
+                    t.apply_all(rec["ops"])
+                except ModelError:
+                    pass
+            else:
+                t.apply_all(rec["ops"])
         return t
 
+    def _fold_first(self):
+        rec = self._undo.pop(0)
+        try:
+            self.base.apply_all(rec["ops"])
+        except ModelError:
+            if not rec.get("ghost"):
+                raise
+
     def _truncate(self):
-        extra = len(self.undo) - self.limit
-        if extra > 0:
-            for rec in self.undo[:extra]:
-                self.base.apply_all(rec["ops"])
-            del self.undo[:extra]
+        while len(self.undo) > self.limit:
+            self._fold_first()
+        while self._undo and self._undo[0].get("ghost"):
+            self._fold_first()
 
     def do(self, rec):
-        self.undo.append(rec)
+        if all(is_ignored_path(p) for p in touched_paths(rec["ops"])):
+            # performed but not recorded by rope; ignored files are not
+            # modelled at all (tree comparisons leave them out): only effect
+            # on the history is that the redo list is cleared
+            del self.redo[:]
+            return
+        self._undo.append(rec)
         self._truncate()
         del self.redo[:]
 
@@ -216,11 +252,12 @@ class HistoryModel:
         return result
 
     def undo_sel(self, index=None, drop=False):
+        vis = self.undo
         if index is None:
-            index = len(self.undo) - 1
-        deps = self.closure(self.undo, index)
+            index = len(vis) - 1
+        deps = self.closure(vis, index)
         ids = {r["id"] for r in deps}
-        self.undo = [r for r in self.undo if r["id"] not in ids]
+        self._undo = [r for r in self._undo if r["id"] not in ids]
         if not drop:
             # rope undoes the most recent dependant first
             self.redo.extend(reversed(deps))
@@ -247,7 +284,7 @@ class HistoryModel:
         """Whether redoing makes sense on the current tree.  After
         undo(drop=True) the redo list can hold changes whose prerequisite was
         dropped; redoing those is a caller error, not part of the property."""
-        saved = (list(self.undo), list(self.redo), self.base.copy())
+        saved = (list(self._undo), list(self.redo), self.base.copy())
         try:
             i = len(self.redo) - 1 if index is None else index
             if any(r["id"] in self.stale for r in self.closure(self.redo, i)):
@@ -258,7 +295,7 @@ class HistoryModel:
         except ModelError:
             return False
         finally:
-            self.undo, self.redo, self.base = saved
+            self._undo, self.redo, self.base = saved
 
     def redo_sel(self, index=None):
         if index is None:
@@ -266,9 +303,7 @@ class HistoryModel:
         deps = self.closure(self.redo, index)
         ids = {r["id"] for r in deps}
         self.redo = [r for r in self.redo if r["id"] not in ids]
-        # deps[0] is the chosen change; dependants further along the redo list
-        # were undone *earlier*?  No: later entries of the redo list were
-        # undone later, i.e. are *older* changes, and are redone first.
-        self.undo.extend(reversed(deps))
-        self._truncate()
+        # later entries of the redo list were undone later, i.e. are *older*
+        # changes, and are redone first
+        self._undo.extend(reversed(deps))
         return deps
